@@ -615,7 +615,7 @@ class GeoMachine(Machine):
         if not geo.columnlist or not geo.layerlist:
             return False
         col = geo.columnlist[ch[0] % len(geo.columnlist)]
-        name = 'w%3d' % (ch[1] % 1000)
+        name = 'w%4d' % (ch[1] % 10000)
         if name in geo.well:
             return False
         top, bot = geo.layerlist[0].bottom, geo.layerlist[-1].bottom
